@@ -1,5 +1,112 @@
-import Toq.Driver.Util
-/-! Driver handlers for C20 (stub; filled in by the owner of this property). -/
+import Toq.Driver.QJson
+import Toq.Model.ChanMetrics
+/-! Driver front end for C20 (channel distance measures: certificate checkers of `Toq.Model.ChanMetrics`).
+
+Ops (matrices in the `QJson` dyadic encoding, row-major; Choi matrices on `X ⊗ Y` with index `x·dY + y`, `N = dX·dY`;
+rationals as `[num, den]` or an integer):
+
+* `c20_cb_primal {"dX","dY","J":N×N,"rho0":dX×dX,"rho1":dX×dX,"X":N×N,"Lb":2N×2N,"L0":dX×dX,"L1":dX×dX}`
+* `c20_cb_dual   {"dX","dY","J":N×N,"Y0":N×N,"Y1":N×N,"c0":rat,"c1":rat,"Lb":2N×2N,"L0":dX×dX,"L1":dX×dX}`
+* `c20_cf_primal {"dX","dY","J1":N×N,"J2":N×N,"Q":N×N,"lam":rat,"Lb":2N×2N,"Lc":dX×dX}`
+* `c20_cf_dual   {"dX","dY","J1":N×N,"J2":N×N,"rho":dX×dX,"W0":N×N,"W1":N×N,"Lrho":dX×dX,"Lb":2N×2N}`
+
+Answer `{"ok":[num,den]}` (the exact value returned by the verified checker) or `{"reject":"<first failed condition>"}`.
+The verdict is always the one of the verified checker; the diagnostic only words a rejection by re-evaluating the same
+named conditions. -/
+open Lean Toq.ChanMetrics EMat
+
 namespace Toq.Driver.C20
-def handlers : List (String × Handler) := []
+
+/-- first index at which `p` fails -/
+def firstFail (k : Nat) (p : Fin k → Bool) : Option Nat :=
+  ((List.finRange k).find? fun i => !p i).map (·.val)
+
+/-- why `psdCert A L` fails (`none` when it holds) -/
+def psdWhy {n k : Nat} (A : EMat n n) (L : EMat n k) : Option String :=
+  if !A.isHermitian then some "not_hermitian"
+  else
+    let R := A - L.mul L.ct
+    if !R.isHermitian then some "residual_not_hermitian"
+    else
+      match firstFail n fun i =>
+          decide (sumFinQ n (fun j => if j = i then 0 else (R.get i j).abs1) ≤ (R.get i i).re) with
+      | some i => some s!"residual_not_diag_dominant_row_{i}"
+      | none => if psdCert A L then none else some "psdCert_failed"
+
+def densityWhy {n : Nat} (ρ L : EMat n n) : Option String :=
+  match psdWhy ρ L with
+  | some s => some s
+  | none => if traceIsOne ρ then none else some "trace_not_one"
+
+def answer (r : Option Rat) (why : Unit → String) : Json :=
+  match r with
+  | some v => Json.mkObj [("ok", ratJson v)]
+  | none => reject (why ())
+
+/-- first named condition that fails -/
+def firstWhy (l : List (String × Option String)) : String :=
+  match l.findSome? fun (name, w) => w.map fun s => s!"{name}_{s}" with
+  | some s => s
+  | none => "rejected"
+
+def hCbPrimal : Handler := fun j => do
+  let dX ← getNat j "dX"
+  let dY ← getNat j "dY"
+  let J ← getEMat j "J" (dX * dY) (dX * dY)
+  let ρ0 ← getEMat j "rho0" dX dX
+  let ρ1 ← getEMat j "rho1" dX dX
+  let X ← getEMat j "X" (dX * dY) (dX * dY)
+  let Lb ← getEMat j "Lb" (dX * dY + dX * dY) (dX * dY + dX * dY)
+  let L0 ← getEMat j "L0" dX dX
+  let L1 ← getEMat j "L1" dX dX
+  return answer (checkCbPrimal dX dY J ρ0 ρ1 X Lb L0 L1) fun _ =>
+    firstWhy [("rho0", densityWhy ρ0 L0), ("rho1", densityWhy ρ1 L1),
+      ("block", psdWhy (cbPrimalBlock dX dY ρ0 ρ1 X) Lb)]
+
+def hCbDual : Handler := fun j => do
+  let dX ← getNat j "dX"
+  let dY ← getNat j "dY"
+  let J ← getEMat j "J" (dX * dY) (dX * dY)
+  let Y0 ← getEMat j "Y0" (dX * dY) (dX * dY)
+  let Y1 ← getEMat j "Y1" (dX * dY) (dX * dY)
+  let c0 ← getRat j "c0"
+  let c1 ← getRat j "c1"
+  let Lb ← getEMat j "Lb" (dX * dY + dX * dY) (dX * dY + dX * dY)
+  let L0 ← getEMat j "L0" dX dX
+  let L1 ← getEMat j "L1" dX dX
+  return answer (checkCbDual dX dY J Y0 Y1 c0 c1 Lb L0 L1) fun _ =>
+    firstWhy [("block", psdWhy (cbDualBlock J Y0 Y1) Lb),
+      ("c0_minus_trY_Y0", psdWhy (scalar c0 - ptrY dX dY Y0) L0),
+      ("c1_minus_trY_Y1", psdWhy (scalar c1 - ptrY dX dY Y1) L1)]
+
+def hCfPrimal : Handler := fun j => do
+  let dX ← getNat j "dX"
+  let dY ← getNat j "dY"
+  let J1 ← getEMat j "J1" (dX * dY) (dX * dY)
+  let J2 ← getEMat j "J2" (dX * dY) (dX * dY)
+  let Q ← getEMat j "Q" (dX * dY) (dX * dY)
+  let lam ← getRat j "lam"
+  let Lb ← getEMat j "Lb" (dX * dY + dX * dY) (dX * dY + dX * dY)
+  let Lc ← getEMat j "Lc" dX dX
+  return answer (checkCfPrimal dX dY J1 J2 Q lam Lb Lc) fun _ =>
+    firstWhy [("lam", if decide (0 ≤ lam) then none else some "negative"),
+      ("block", psdWhy (cfPrimalBlock J1 J2 Q) Lb),
+      ("herm_trY_Q_minus_lam", psdWhy (hermPart (ptrY dX dY Q) - scalar lam) Lc)]
+
+def hCfDual : Handler := fun j => do
+  let dX ← getNat j "dX"
+  let dY ← getNat j "dY"
+  let J1 ← getEMat j "J1" (dX * dY) (dX * dY)
+  let J2 ← getEMat j "J2" (dX * dY) (dX * dY)
+  let ρ ← getEMat j "rho" dX dX
+  let W0 ← getEMat j "W0" (dX * dY) (dX * dY)
+  let W1 ← getEMat j "W1" (dX * dY) (dX * dY)
+  let Lρ ← getEMat j "Lrho" dX dX
+  let Lb ← getEMat j "Lb" (dX * dY + dX * dY) (dX * dY + dX * dY)
+  return answer (checkCfDual dX dY J1 J2 ρ W0 W1 Lρ Lb) fun _ =>
+    firstWhy [("rho", densityWhy ρ Lρ), ("block", psdWhy (cfDualBlock dX dY ρ W0 W1) Lb)]
+
+def handlers : List (String × Handler) :=
+  [("c20_cb_primal", hCbPrimal), ("c20_cb_dual", hCbDual), ("c20_cf_primal", hCfPrimal), ("c20_cf_dual", hCfDual)]
+
 end Toq.Driver.C20
